@@ -181,6 +181,49 @@ def task_walks(arg):
     return steps, out
 
 
+def both_halves_cases():
+    """ONE load() argument (a binary blob given as bytes; a text with two armor blocks is read up to the end of its first block
+    by the armor reader and is not used here) that holds the public AND the private half of a key, in either
+    order: both halves are loaded - each is reported for its half, both are counted, and after unloading the half that key() hands out the
+    other one is still there under every identifier"""
+    objs, names = universe()
+    C, Cpub = objs[names.index('C')], objs[names.index('Cpub')]
+    fpr = str(C.fingerprint)
+    nsub = len(C.subkeys)
+    out = []
+    for order, parts in (('public then private', (Cpub, C)), ('private then public', (C, Cpub))):
+        for form in ('binary',):
+            blob = b''.join(bytes(p) for p in parts)
+            case = {'load_argument': '%s half of C, %s, in one %s blob' % (order.split(' ')[0], order, form)}
+            probs = []
+            try:
+                kr = pgpy.PGPKeyring()
+                ret = kr.load(blob)
+                for half in ('public', 'private'):
+                    got = {str(f) for f in kr.fingerprints(keyhalf=half, keytype='primary')}
+                    if got != {fpr}:
+                        probs.append('fingerprints(keyhalf=%r, keytype=primary) reports %s after loading both halves' % (half, sorted(x[-8:] for x in got)))
+                if len(kr) != 2 * (1 + nsub):
+                    probs.append('len(keyring) = %d, loaded: two halves of a key with %d subkeys' % (len(kr), nsub))
+                if not probs:
+                    with kr.key(fpr) as first:
+                        pass
+                    kr.unload(first)
+                    for ident in idents(C):
+                        if ident not in kr:
+                            probs.append('after unloading the %s half, %r is not in the keyring although the other half is loaded' % ('public' if first.is_public else 'private', ident))
+                            break
+                        with kr.key(ident) as other:
+                            if other.is_public == first.is_public:
+                                probs.append('after unloading one half, %r still selects that half' % ident)
+                                break
+            except Exception as ex:
+                probs.append('raised %s: %s' % (type(ex).__name__, str(ex)[:80]))
+            if probs:
+                out.append({'case': dict(case, problems=probs[:3]), 'what': '%s: %s' % (case['load_argument'], probs[0])})
+    return 2, out
+
+
 def component(tier='quick', seed=0, known=()):
     objs, names = universe()
     ops = [('L', i) for i in range(len(objs))] + [('U', i) for i in range(len(objs))]
@@ -205,10 +248,13 @@ def component(tier='quick', seed=0, known=()):
         seen.add(key)
         violations.append({'case': {'history': fmt(h), 'ops': [[k, names[i]] for k, i in h], 'problems': p[:4]},
                            'what': 'after the last step: ' + p[0]})
+    nb, bv = both_halves_cases()
+    cases += nb
+    violations += bv[:2]
     nontriv = sum(1 for h in hists if any(not objs[i].is_primary for _, i in h))
     return {'name': 'C19/keyring-histories-with-subkey-objects',
             'bound': 'all %d histories of length <= %d over load/unload of each of %d key objects (%s), checked after the last step (every prefix is a '
-                     'history of the enumeration); %d seeded random walks of length %d checked after every step'
+                     'history of the enumeration); %d seeded random walks of length %d checked after every step; 2 load() arguments holding both halves of a key'
                      % (len(hists), maxlen, len(objs), ', '.join(names), nwalks, wlen),
             'cases': cases + sum(c for c, _ in rb), 'distinct_nontrivial': nontriv,
             'rule': 'one case = one history (enumeration) or one step of a walk; non-trivial = at least one operand is a subkey object',
